@@ -134,8 +134,11 @@ def request_isolation(repo: Repo, run: Run) -> None:
     """Every request builds a fresh KdBufParser over the facade's own thread/process tables; what an earlier request (or the
     decoders it ran) left in them is wiped because installing the dump's thread map clears both tables first, unconditionally,
     and never rebinds them (C02/R4).  That is a necessary condition of "repeating a request gives the same output"."""
+    if getattr(run, "is_probe", False):
+        return          # (a check run for its own obligations does not take over in turn)
     from . import c02
     probe = Run("C02", run.tier, run.repo_root)
+    probe.is_probe = True
     try:
         c02.check(repo, probe)
     except AnalysisError:
@@ -154,6 +157,19 @@ def request_isolation(repo: Repo, run: Run) -> None:
 
 
 def check(repo: Repo, run: Run) -> None:
+    from .. import shared
+    found, n_m = shared.kept_mutable_defaults(repo)
+    pipeline_classes = {"PyKdebugParser", "KdBufParser", "TracesParser", "CallstacksParser"}
+    mine = [f for f in found if f.cls in pipeline_classes]
+    run.ob("R6", mine[0].module if mine else "pykdebugparser", mine[0].cls if mine else "pipeline classes",
+           "each request starts from objects of its own", not mine,
+           "" if not mine else
+           f"{mine[0].cls}.{mine[0].method} keeps the default object of its parameter `{mine[0].param}` (a mutable container, created "
+           f"once) as self.{mine[0].attr}: every {mine[0].cls} built without that argument - one per request - works on the same "
+           f"object, so what one request leaves in it is there for the next: the same request repeated gives another text",
+           line=mine[0].lineno if mine else None, nontrivial=bool(mine),
+           witness="the same request twice on a dump that defines a string after its first use")
+    run.floor("R6", "methods scanned for kept mutable defaults", n_m, 300)
     take_over(run, "c08", "C08", repo, lambda o: o["rule"] == "R6", "R0", "decoders do not count records of other classes",
               "the records of classes that were not requested are not in the window of a filtered run: the same call then "
               "renders differently with and without the filter", 1)
